@@ -115,25 +115,39 @@ theorem toU64_ok_iff (s : Bytes) (v : Nat) :
           cases left <;> simp [h, not_isDigit_43] <;> grind
       · simp [h43]; grind
 
-/-- `to_i64` after one arm of `to_i64_t`. -/
-theorem toI64Go_ok (data : Bytes) (sign : Int) (start : Nat) (v : Int) :
+/-- largest magnitude `to_i64_t` accepts for a sign: `2^63` for `-`, `2^63-1` otherwise. -/
+def signLimit (sign : Int) : Nat := if sign < 0 then I64_MIN_ABS else I64_MAX
+
+theorem signLimit_one : signLimit 1 = 2^63 - 1 := by simp [signLimit, I64_MAX]
+theorem signLimit_neg_one : signLimit (-1) = 2^63 := by simp [signLimit, I64_MIN_ABS]
+
+/-- `to_i64` after one arm of `to_i64_t` (`sign` is `1` or `-1`). -/
+theorem toI64Go_ok (data : Bytes) (sign : Int) (start : Nat) (v : Int) (hs : sign = 1 ∨ sign = -1) :
     requireEmpty (toI64Go data sign start) = .ok v ↔
-    ∃ n, toU64T2 data start = .ok (n, []) ∧ n ≤ I64_MAX ∧ v = sign * (n : Int) := by
-  unfold toI64Go requireEmpty
+    ∃ n, toU64T2 data start = .ok (n, []) ∧ n ≤ signLimit sign ∧ v = sign * (n : Int) := by
+  unfold toI64Go requireEmpty signLimit
   cases h : toU64T2 data start with
   | error e => simp
   | ok p =>
     obtain ⟨n, left⟩ := p
-    by_cases hn : n > I64_MAX
-    · simp [hn]; intro _ _ ; omega
-    · cases left <;> simp [hn] <;> grind
+    rcases hs with rfl | rfl
+    · simp only [show ¬ ((1 : Int) < 0) by decide, if_false]
+      by_cases hn : n > I64_MAX
+      · simp [hn]; intro _ _ ; omega
+      · cases left <;> simp [hn] <;> grind
+    · simp only [show ((-1 : Int) < 0) by decide, if_true]
+      by_cases hn : n > I64_MIN_ABS
+      · simp [hn]; intro _ _ ; omega
+      · cases left <;> simp [hn] <;> grind
 
 theorem toI64_ok_iff (s : Bytes) (v : Int) :
     toI64 s = .ok v ↔
-      ∃ c data n, s = c :: data ∧ n ≤ I64_MAX ∧
-        ((isDigit c = true ∧ toU64T2 data (digitVal c) = .ok (n, []) ∧ v = (n : Int)) ∨
-         (c = 45 ∧ toU64T2 data 0 = .ok (n, []) ∧ v = -(n : Int)) ∨
-         (c = 43 ∧ toU64T2 data 0 = .ok (n, []) ∧ v = (n : Int))) := by
+      ∃ c data n, s = c :: data ∧
+        ((isDigit c = true ∧ toU64T2 data (digitVal c) = .ok (n, []) ∧ n ≤ I64_MAX ∧ v = (n : Int)) ∨
+         (c = 45 ∧ toU64T2 data 0 = .ok (n, []) ∧ n ≤ I64_MIN_ABS ∧ v = -(n : Int)) ∨
+         (c = 43 ∧ toU64T2 data 0 = .ok (n, []) ∧ n ≤ I64_MAX ∧ v = (n : Int))) := by
+  have lpos : signLimit 1 = I64_MAX := by simp [signLimit]
+  have lneg : signLimit (-1) = I64_MIN_ABS := by simp [signLimit]
   cases s with
   | nil => simp [toI64, toI64T, requireEmpty]
   | cons c data =>
@@ -142,56 +156,57 @@ theorem toI64_ok_iff (s : Bytes) (v : Int) :
     · have h45 : c ≠ 45 := by rintro rfl; simp [not_isDigit_45] at hc
       have h43 : c ≠ 43 := by rintro rfl; simp [not_isDigit_43] at hc
       simp only [hc, if_true]
-      rw [toI64Go_ok]
+      rw [toI64Go_ok _ _ _ _ (Or.inl rfl), lpos]
       constructor
       · rintro ⟨n, h1, h2, h3⟩
-        exact ⟨c, data, n, ⟨rfl, rfl⟩, h2, Or.inl ⟨hc, h1, by simpa using h3⟩⟩
-      · rintro ⟨c', data', n, ⟨rfl, rfl⟩, h2, h | h | h⟩
-        · exact ⟨n, h.2.1, h2, by simpa using h.2.2⟩
+        exact ⟨c, data, n, ⟨rfl, rfl⟩, Or.inl ⟨hc, h1, h2, by simpa using h3⟩⟩
+      · rintro ⟨c', data', n, ⟨rfl, rfl⟩, h | h | h⟩
+        · exact ⟨n, h.2.1, h.2.2.1, by simpa using h.2.2.2⟩
         · exact absurd h.1 h45
         · exact absurd h.1 h43
     · simp only [hc, Bool.false_eq_true, if_false]
       by_cases h45 : c = 45
       · subst h45
         simp only [beq_self_eq_true, if_true]
-        rw [toI64Go_ok]
+        rw [toI64Go_ok _ _ _ _ (Or.inr rfl), lneg]
         constructor
         · rintro ⟨n, h1, h2, h3⟩
-          exact ⟨45, data, n, ⟨rfl, rfl⟩, h2, Or.inr (Or.inl ⟨rfl, h1, by simpa using h3⟩)⟩
-        · rintro ⟨c', data', n, ⟨rfl, rfl⟩, h2, h | h | h⟩
+          exact ⟨45, data, n, ⟨rfl, rfl⟩, Or.inr (Or.inl ⟨rfl, h1, h2, by simpa using h3⟩)⟩
+        · rintro ⟨c', data', n, ⟨rfl, rfl⟩, h | h | h⟩
           · exact absurd h.1 hc
-          · exact ⟨n, h.2.1, h2, by simpa using h.2.2⟩
+          · exact ⟨n, h.2.1, h.2.2.1, by simpa using h.2.2.2⟩
           · exact absurd h.1 (by decide)
       · by_cases h43 : c = 43
         · subst h43
           simp only [show ((43 : UInt8) == 45) = false by decide, beq_self_eq_true, if_true, Bool.false_eq_true, if_false]
-          rw [toI64Go_ok]
+          rw [toI64Go_ok _ _ _ _ (Or.inl rfl), lpos]
           constructor
           · rintro ⟨n, h1, h2, h3⟩
-            exact ⟨43, data, n, ⟨rfl, rfl⟩, h2, Or.inr (Or.inr ⟨rfl, h1, by simpa using h3⟩)⟩
-          · rintro ⟨c', data', n, ⟨rfl, rfl⟩, h2, h | h | h⟩
+            exact ⟨43, data, n, ⟨rfl, rfl⟩, Or.inr (Or.inr ⟨rfl, h1, h2, by simpa using h3⟩)⟩
+          · rintro ⟨c', data', n, ⟨rfl, rfl⟩, h | h | h⟩
             · exact absurd h.1 hc
             · exact absurd h.1 (by decide)
-            · exact ⟨n, h.2.1, h2, by simpa using h.2.2⟩
+            · exact ⟨n, h.2.1, h.2.2.1, by simpa using h.2.2.2⟩
         · have e45 : (c == 45) = false := by simpa using h45
           have e43 : (c == 43) = false := by simpa using h43
           simp only [e45, e43, Bool.false_eq_true, if_false]
           constructor
           · intro h; simp [requireEmpty] at h
-          · rintro ⟨c', data', n, ⟨rfl, rfl⟩, h2, h | h | h⟩
+          · rintro ⟨c', data', n, ⟨rfl, rfl⟩, h | h | h⟩
             · exact absurd h.1 hc
             · exact absurd h.1 h45
             · exact absurd h.1 h43
 
-/-- digits whose value exceeds `i64::MAX` make every arm of `to_i64_t` fail with `Overflow`
-(either inside the u64 accumulator or at `i64::try_from`). -/
+/-- digits whose value exceeds the limit of the sign make the arm of `to_i64_t` fail with
+`Overflow` (either inside the u64 accumulator or at the checked conversion). -/
 theorem toI64Go_overflow (data : Bytes) (sign : Int) (start : Nat) (hd : allDigits data = true)
-    (hs : start ≤ U64_MAX) (h : decFrom data start > I64_MAX) :
+    (hs : start ≤ U64_MAX) (h : decFrom data start > signLimit sign) :
     requireEmpty (toI64Go data sign start) = .error .overflow := by
   unfold toI64Go requireEmpty
+  unfold signLimit at h
   rw [toU64T2_allDigits data start hd hs]
   by_cases h1 : decFrom data start ≤ U64_MAX
-  · simp [h1, h]
+  · by_cases hsg : sign < 0 <;> simp [hsg] at h <;> simp [h1, h, hsg]
   · simp [h1]
 
 theorem decFrom_append (a b : Bytes) (acc : Nat) : decFrom (a ++ b) acc = decFrom b (decFrom a acc) := by
